@@ -1,3 +1,4 @@
+mod c20;
 mod ctx;
 mod gen;
 mod history;
@@ -30,11 +31,16 @@ fn usage() -> ! {
     std::process::exit(2)
 }
 
+fn c20_no_register() {}
+
 fn main() {
-    interp::install_panic_hook();
-    bc_envelope::register_tags();
     let args: Vec<String> = std::env::args().collect();
     if args.len() < 2 { usage(); }
+    // the C20 children must see first use: no registration, no panic hook side effects
+    if !args[1].starts_with("c20-") {
+        interp::install_panic_hook();
+        bc_envelope::register_tags();
+    }
     match args[1].as_str() {
         "replay" => {
             let f = std::fs::File::open(&args[2]).expect("open");
@@ -46,6 +52,10 @@ fn main() {
                 if let Some(o) = m.exec(&l) { writeln!(out, "{}", o).unwrap(); }
             }
         }
+        "c20-trace-one" => { c20_no_register(); c20::trace_one(&args[2]); }
+        "c20-expected-one" => { c20::expected_one(args[2] == "1"); }
+        "c20-stress-one" => { c20::stress_one(args[2].parse().unwrap(), args[3].parse().unwrap(), args[4] == "1", args[5].parse().unwrap()); }
+        "c20" => { c20::campaign(&args[2], args.get(3).and_then(|s| s.parse().ok()).unwrap_or(1), args.get(4).map(|s| s == "thorough").unwrap_or(false)); }
         "run" => {
             let mut prop = String::new(); let mut seed = 1u64; let mut tier = "quick".to_string(); let mut outdir = String::new(); let mut scale = 1usize;
             let mut i = 2;
